@@ -243,7 +243,7 @@ func ruleC03PathWalk(c *Ctx) {
 
 // Cross registrations of round 11: a change that was reported only by another property's rule.
 func init() {
-	register("C02", ruleC09ParsedImmutable, ruleC09DimensionWalk) // `scores[(1:end)]` in a select list: the markers resolved inside the cached selector, the second row is cut at the first row's length
+	register("C02", ruleC09ParsedImmutable)                        // `scores[(1:end)]` in a select list: the markers resolved inside the cached selector, the second row is cut at the first row's length
 	register("C06", ruleC05Window)                                // LIMIT 0 on a union / DISTINCT: the -1 defaults dropped and `limit > 0` for "a limit was given"
 	register("C15", ruleC04Strategy)                              // a requested HASH_JOIN on `o.minimum < f.price`: `<` decided by the equality of the key texts
 }
